@@ -437,6 +437,38 @@ pub fn ring_hpoly_ops(s: &mut Src) -> R {
     Ok(())
 }
 
+// ------------------------------------------------------------------ formal linear combinations Lc<X, R>
+// (witness search / replay for the Verus unit `lc`; AHashMap-based: native only)
+pub fn ring_lc_ops(s: &mut Src) -> R {
+    use yui::lc::Lc;
+    use yui::poly::Var;
+    type X = Var<'x', usize>;
+    type L = Lc<X, i64>;
+    const N: usize = 4;
+    let mut ta = vec![]; let mut tb = vec![];
+    for _ in 0..5 { ta.push((s.small(0, (N - 1) as i64) as usize, s.small(-2, 2))); }
+    for _ in 0..5 { tb.push((s.small(0, (N - 1) as i64) as usize, s.small(-2, 2))); }
+    let (na, nb) = (s.small(0, 5) as usize, s.small(0, 5) as usize);
+    reach!();
+    let dense = |t: &[(usize, i64)]| { let mut d = [0i64; 2 * N]; for &(i, c) in t { d[i] += c; } d };
+    let mk = |t: &[(usize, i64)]| L::from_iter(t.iter().map(|&(i, c)| (X::from(i), c)));
+    let same = |l: &L, d: &[i64; 2 * N]| (0..2 * N).all(|i| *l.coeff(&X::from(i)) == d[i]) && l.nterms() == d.iter().filter(|c| **c != 0).count()
+        && l.iter().all(|(_, c)| *c != 0) && l.is_zero() == d.iter().all(|c| *c == 0);
+    let (a, b) = (mk(&ta[..na]), mk(&tb[..nb]));
+    let (da, db) = (dense(&ta[..na]), dense(&tb[..nb]));
+    ob!(same(&a, &da) && same(&b, &db), "Lc::from_iter::sums-terms-stores-no-zero");
+    let mut dsum = [0i64; 2 * N]; let mut ddif = [0i64; 2 * N]; let mut dmul = [0i64; 2 * N];
+    for i in 0..2 * N { dsum[i] = da[i] + db[i]; ddif[i] = da[i] - db[i]; }
+    for i in 0..N { for j in 0..N { dmul[i + j] += da[i] * db[j]; } }
+    let mut c = a.clone(); c += &b;
+    ob!(same(&c, &dsum), "Lc::add_assign::coefficientwise-sum-no-zero-stored");
+    let mut c = a.clone(); c -= &b;
+    ob!(same(&c, &ddif), "Lc::sub_assign::coefficientwise-difference-no-zero-stored");
+    let c = a.combine(&b, |x, y| x.clone() * y.clone());
+    ob!(same(&c, &dmul), "Lc::combine::bilinear-extension-no-zero-stored");
+    Ok(())
+}
+
 crate::harness_table!(RING:
     ring_div_round_i32, ring_div_round_i64, ring_div_round_i128, ring_div_round_const_i64, ring_div_round_const_i32,
     ring_int_units_i32, ring_int_divides_i32, ring_int_units_i64, ring_int_divides_i64,
@@ -445,6 +477,6 @@ crate::harness_table!(RING:
     ring_ff2p_inv [unwind 8], ring_ff3_inv [unwind 8], ring_ff5_inv [unwind 8], ring_ff7_inv [unwind 10], ring_ff46337_inv [unwind 30],
     ring_f2,
     ring_qint_addsub_i32, ring_qint_mul_i32, ring_gauss_units_i32 , ring_eisen_units_i32 [unwind 8], ring_gauss_divrem_i32, ring_eisen_divrem_i32,
-    ring_gauss_gcd [unwind 6], ring_ff5_gcd [unwind 6], ring_ratio_ops [unwind 8], ring_poly_divrem [unwind 8], ring_hpoly_ops,
+    ring_gauss_gcd [unwind 6], ring_ff5_gcd [unwind 6], ring_ratio_ops [unwind 8], ring_poly_divrem [unwind 8], ring_hpoly_ops, ring_lc_ops,
     ring_qint_addsub_i64, ring_qint_mul_i64, ring_gauss_units_i64, ring_eisen_units_i64 [unwind 8], ring_gauss_divrem_i64, ring_eisen_divrem_i64,
 );
